@@ -64,6 +64,20 @@ func genC07(env *core.Env, emit func(core.Case)) {
 	r := env.Rng
 	idx := 0
 	readSizes := []int{1, 2, 5, 16, 1024, 16389, 70000}
+	for rep := 0; rep < 6; rep++ {
+		ops, p := interleavedSessions(r, rep%2 == 0)
+		if ops == nil {
+			continue
+		}
+		w := ""
+		if p != "" {
+			w = "Read panicked: " + p
+		}
+		ops = append(ops, core.Op{Kind: 'X', Note: "two connections read in turns: no panic", Want: w})
+		emit(core.Case{Name: fmt.Sprintf("interleaved/%d", rep), Stream: "interleaved", Ops: ops, Key: fmt.Sprintf("interleaved/%v", rep%2 == 0), Sig: fmt.Sprintf("interleaved/%v/%d", rep%2 == 0, rep),
+			Sample: map[string]any{"stream": "interleaved", "accepted": rep%2 == 0}})
+		env.Count("interleaved")
+	}
 	// readCase: run one client stream and check the read-side pipe predicate.
 	readCase := func(stream string, accepted bool, tail []byte, mkChunks func(all []byte) [][]byte, fin string, sizes []int, sig string, legal bool) {
 		idx++
@@ -504,6 +518,38 @@ func boundaryClass(off, helloLen int) string {
 		return "next-header"
 	}
 	return "later"
+}
+
+// interleavedSessions: two connections of one process, set up one after the other and then read in turns with
+// buffers smaller than the records. Each connection's bytes are its own: whatever buffers the library reuses
+// between connections, the model (one independent pipe per connection) is what each of them must show.
+func interleavedSessions(r *rand.Rand, accepted bool) (ops []core.Op, panicked string) {
+	var ss [2]*connh.Sess
+	for i := range ss {
+		keys, rec, _, reg := c07Hello(r, accepted)
+		ss[i] = connh.NewSess(keys)
+		reg(ss[i])
+		tail := gen.Cat(gen.Record(20, 0x0303, []byte{1}), gen.Record(23, 0x0303, gen.RandBytes(r, 6000+r.IntN(9000))), gen.Record(23, 0x0303, gen.RandBytes(r, 1+r.IntN(300))))
+		if res := ss[i].New(oneChunk(gen.Cat(rec, tail)), "eof"); res.Err != "-" {
+			return nil, ""
+		}
+	}
+	sizes := []int{300, 2048, 5000, 64, 16389}
+	done := [2]bool{}
+	for k := 0; k < 400 && !(done[0] && done[1]); k++ {
+		i := k % 2
+		if done[i] {
+			continue
+		}
+		io := ss[i].Read(sizes[(k/2+i)%len(sizes)])
+		if io.Err == "panic" {
+			panicked = io.Panic
+		}
+		if io.Err != "-" {
+			done[i] = true
+		}
+	}
+	return append(append([]core.Op{}, ss[0].Ops...), ss[1].Ops...), panicked
 }
 
 // cutClass classifies an offset within a record stream: header / after-header / body / boundary.
